@@ -230,6 +230,90 @@ def run_model_parallel(run, engine, lines):
     return out
 
 
+def havoc_cases(seeds, rng, n):
+    """Random multi-byte damage: 1..6 patches of interesting or random bytes at random places
+    (biased to the mapped structures), optionally a random truncation."""
+    out = []
+    interesting = [b"\0", b"\xff", b"\x7f", b"\x80", b"\0\0", b"\xff\xff", b"\xff\xff\xff\xff",
+                   b"\xff\xff\xff\x7f", b"\0\0\0\x80", b"\xff" * 8, b"\0" * 8, b"\x01\0\0\0"]
+    for _ in range(n):
+        s = rng.choice(seeds)
+        patches = []
+        for _ in range(rng.randint(1, 6)):
+            fi = rng.randrange(len(s.files))
+            if s.fields and rng.random() < 0.6:
+                f = rng.choice([x for x in s.fields if x.fidx == fi] or s.fields)
+                fi = f.fidx
+                off = max(0, f.off + rng.randint(-2, 2))
+            else:
+                off = rng.randrange(max(1, len(s.data[fi])))
+            b = rng.choice(interesting) if rng.random() < 0.6 else bytes(rng.getrandbits(8) for _ in range(rng.randint(1, 8)))
+            patches.append((fi, off, b))
+        trunc = None
+        if rng.random() < 0.25:
+            fi = rng.randrange(len(s.files))
+            trunc = (fi, rng.randrange(len(s.data[fi]) + 1))
+        def fname(fi, off, n):
+            for f in s.fields:
+                if f.fidx == fi and off < f.off + f.size and f.off < off + n:
+                    return f.name
+            return "%d@%x" % (fi, off)
+        out.append(FileCase(s, "m=%d" % (0 if rng.random() < 0.2 else 1), patches, trunc,
+                            what="%s: havoc %s%s" % (s.name, ",".join("%s=%s" % (fname(a, o, len(b)), b.hex()) for a, o, b in patches),
+                                                     " trunc %d:%d" % trunc if trunc else ""), weight=3))
+    return out
+
+
+def fuzz_stage(run, seeds, seconds):
+    """libFuzzer (clang) over the same call sequence, in-process; artifacts are concrete failing inputs."""
+    import glob
+    import hashlib
+    import shutil
+    import subprocess
+    drv = open(os.path.join(core.VERIF, "harness", "corrupt_drv.c"), "rb").read()
+    tag = "-DDRV_HASH=0x" + hashlib.sha256(drv).hexdigest()[:8]
+    exe = run.need_cc("corrupt_fuzz", "corrupt_fuzz.c", sources=core.lib_sources(),
+                      flags=CC_FLAGS + ("-fsanitize=fuzzer", tag), cc="clang")
+    if exe is None:
+        return
+    d = os.path.join(run.work, "fuzz")
+    shutil.rmtree(d, ignore_errors=True)
+    for sub in ("corpus", "seeds", "art"):
+        os.makedirs(os.path.join(d, sub))
+    for s in seeds:
+        if len(s.files) == 1 and len(s.data[0]) <= 40000:
+            shutil.copy(s.files[0], os.path.join(d, "seeds"))
+    env = dict(os.environ)
+    env.update(ENV)
+    cmd = [exe, "-max_total_time=%d" % seconds, "-timeout=10", "-rss_limit_mb=6000", "-max_len=40000",
+           "-artifact_prefix=art/", "-jobs=%d" % WORKERS, "-workers=%d" % WORKERS, "-seed=%d" % run.seed,
+           "-print_final_stats=1", "corpus", "seeds"]
+    try:
+        subprocess.run(cmd, cwd=d, env=env, stdout=subprocess.PIPE, stderr=subprocess.STDOUT, timeout=seconds + 120)
+    except subprocess.TimeoutExpired:
+        run.count("fuzz-wallclock-timeout")
+    execs = 0
+    for lg in glob.glob(os.path.join(d, "fuzz-*.log")):
+        m = re.findall(r"stat::number_of_executed_units:\s*(\d+)", open(lg, errors="replace").read())
+        if m:
+            execs += int(m[-1])
+    run.count("fuzz-executions", execs)
+    run.cov["engines"]["corrupt"]["libfuzzer"] = {"seconds": seconds, "executions": execs,
+                                                  "corpus_files": len(os.listdir(os.path.join(d, "corpus")))}
+    for art in sorted(glob.glob(os.path.join(d, "art", "*")))[:10]:
+        data = open(art, "rb").read()
+        p = subprocess.run([exe, art], cwd=d, env=env, stdout=subprocess.PIPE, stderr=subprocess.PIPE, timeout=120)
+        err = p.stderr.decode(errors="replace")
+        m = re.search(r"SUMMARY: (\w+): (\S+) \S* ?(?:in (\S+))?", err)
+        sig = "corrupt fuzz %s %s" % (os.path.basename(art).split("-")[0],
+                                      (m.group(2) + "@" + (m.group(3) or "?")) if m else "no-summary")
+        run.violation("impl", "libFuzzer artifact %s: %s" % (os.path.basename(art), sig[13:]),
+                      {"engine": "corrupt-fuzz", "artifact": os.path.basename(art), "size": len(data),
+                       "input_hex": data[:65536].hex(), "stderr_tail": err[-1500:],
+                       "how": "write input_hex to a file and run build/cc/*/corrupt_fuzz <file>"},
+                      found_input=True, signature=sig)
+
+
 def check(run):
     run.trusted += [
         "C03 is partial by nature: the theorems are about the parsing logic of the models; memory safety, "
@@ -287,11 +371,21 @@ def check(run):
         # all unmodified seeds + a per-seed sample sized for the time budget
         keep = [c for c in cases if c.weight == 0]
         rest = [c for c in cases if c.weight != 0]
-        budget = int(os.environ.get("C03_QUICK_CASES", "2600"))
+        budget = int(os.environ.get("C03_QUICK_CASES", "20000"))
         keep += run.rng.sample(rest, min(len(rest), budget))
         cases = keep
-    lines = pre + rle + [c.line() for c in cases]
-    whats = ["corpus"] * len(pre) + ["rle"] * len(rle) + [c.what for c in cases]
+    # ---- page size through the public API (model: SizesModel.set_page_size) ----
+    pvals = set([0, 1, 2, 3, 4095, 4096, 4097, 65536, (1 << 31), (1 << 32), (1 << 63), (1 << 64) - 1,
+                 (1 << 63) + 1, 0x7fffffffffffffff, 6, 12, 0x1800])
+    for k in range(64):
+        pvals |= {1 << k, (1 << k) + 1, max(0, (1 << k) - 1)}
+    for _ in range(60):
+        pvals.add(run.rng.getrandbits(run.rng.choice([8, 16, 32, 64])))
+    sizes = ["S ps %x" % v for v in sorted(pvals)]
+    if not quick:
+        cases += havoc_cases(seeds, run.rng, 30000)
+    lines = pre + rle + sizes + [c.line() for c in cases]
+    whats = ["corpus"] * len(pre) + ["rle"] * len(rle) + ["page size"] * len(sizes) + [c.what for c in cases]
     run.cov["engines"]["corrupt"] = {"corpus_cases": len(pre), "rle_cases": len(rle), "file_cases": len(cases),
                                      "seeds": [s.name for s in seeds],
                                      "fields_mapped": sum(len(s.fields) for s in seeds)}
@@ -305,6 +399,10 @@ def check(run):
     t0 = time.time()
     judge(run, lines, whats, model, impl)
     run.cov["phase_s"]["judge"] = round(time.time() - t0, 1)
+    if not quick and not run.violations:
+        t0 = time.time()
+        fuzz_stage(run, seeds, int(os.environ.get("C03_FUZZ_SECONDS", "60")))
+        run.cov["phase_s"]["libfuzzer"] = round(time.time() - t0, 1)
 
 
 def judge(run, lines, whats, model, impl):
@@ -333,6 +431,15 @@ def judge(run, lines, whats, model, impl):
                 else:
                     groups.setdefault("corrupt rle-tie", []).append(i)
             continue
+        if l.startswith("S "):
+            run.note_case(l, not il.startswith("S ok"))
+            run.count("pagesize-" + (il.split()[1] if len(il.split()) > 1 else "abnormal"))
+            if il != model[i]:
+                if il.startswith("S "):
+                    groups.setdefault("corrupt tie page-size", []).append(i)
+                else:
+                    groups.setdefault("corrupt pagesize-crash " + il[:60], []).append(i)
+            continue
         # file cases
         toks = il.split()
         op = [t for t in toks if t.startswith("open=")]
@@ -346,9 +453,10 @@ def judge(run, lines, whats, model, impl):
             run.sample({"what": whats[i], "impl": il[:300]})
         if BAD.search(il):
             groups.setdefault(signature(il), []).append(i)
-        elif " m=0 " in l[:8] and "open=BUSY" in toks:
-            # read(2)-only policy: a chunk of more than 16 pages can exhaust the 16-entry file
-            # cache (KDUMP_ERR_BUSY, a documented status); the model has no cache
+        elif "open=BUSY" in toks:
+            # data that is not mmap'ed (read(2)-only policy, or beyond EOF) goes through the 16-entry
+            # read cache; a chunk of more than 16 pages can exhaust it (KDUMP_ERR_BUSY, a documented
+            # status); the model has no cache
             run.count("busy-tolerated")
         elif model[i] not in ("SKIP", "") and not model[i].startswith("P ?"):
             run.count("predicted")
